@@ -63,14 +63,17 @@ def gen_case(rng, nmax):
     if mode == "fixed":
         percol = rng.random() < 0.5
         mean = [rng.randint(-2, 2) / 2 for _ in range(p)] if percol else rng.randint(-2, 2) / 2
+        # fixed (co)variances on the scale of the data as well: correlations of order 1e-8 and below are ordinary
+        # for data with standard deviation 1e-4 (an absolute tolerance in the code must not swallow them)
+        sc2 = {"small": 1e-8, "tiny": 1e-12}.get(kind, 1.0) if rng.random() < 0.7 else rng.choice([1.0, 1e-6, 900.0])
         if cost == "l2":
             c["param"] = mean
         elif cost == "gvar":
-            var = [rng.choice([0.5, 1.0, 2.0, 4.0]) for _ in range(p)] if percol else rng.choice([0.5, 1.0, 2.0])
+            var = [rng.choice([0.5, 1.0, 2.0, 4.0]) * sc2 for _ in range(p)] if percol else rng.choice([0.5, 1.0, 2.0]) * sc2
             c["param"] = [mean, var]
         else:
             A = [[rng.randint(-2, 2) for _ in range(p)] for _ in range(p)]
-            cov = [[sum(A[i][k] * A[j][k] for k in range(p)) + (2 if i == j else 0) for j in range(p)] for i in range(p)]
+            cov = [[(sum(A[i][k] * A[j][k] for k in range(p)) + (2 if i == j else 0)) * sc2 for j in range(p)] for i in range(p)]
             c["param"] = [mean, cov]
     return c
 
